@@ -282,7 +282,21 @@ func litFieldOrigin(fn *core.FuncInfo, e ast.Expr, field string, depth int) (str
 	if cl == nil {
 		return "", false
 	}
-	return substParams(origin(h, litField(cl, field), depth), h, call, fn, depth), true
+	fe := litField(cl, field)
+	o := origin(h, fe, depth)
+	// a parameter of the constructor that the constructor itself reassigns is not simply what the caller passed
+	if id, ok := ast.Unparen(fe).(*ast.Ident); ok {
+		if v, ok := h.Pkg.TypesInfo.Uses[id].(*types.Var); ok && isParam(h, v) {
+			if defs := localDefs(h, v); len(defs) > 0 {
+				parts := []string{o}
+				for _, d := range defs {
+					parts = append(parts, origin(h, d.rhs, depth-1))
+				}
+				o = "phi(" + strings.Join(uniq(parts), " | ") + ")"
+			}
+		}
+	}
+	return substParams(o, h, call, fn, depth), true
 }
 
 var originBusy = map[*types.Func]bool{}
@@ -407,6 +421,14 @@ func originVia(top, at *core.FuncInfo, e ast.Expr, depth int) string {
 	if at == nil || at == top {
 		return origin(top, e, depth)
 	}
+	return originViaStr(top, at, origin(at, e, depth), depth)
+}
+
+// originViaStr: an origin already computed in the terms of function at, translated into the terms of top.
+func originViaStr(top, at *core.FuncInfo, o string, depth int) string {
+	if at == nil || at == top {
+		return o
+	}
 	var sites []*ast.CallExpr
 	ast.Inspect(top.Decl.Body, func(n ast.Node) bool {
 		if c, ok := n.(*ast.CallExpr); ok && core.Callee(top.Pkg.TypesInfo, c) == at.Obj {
@@ -414,7 +436,6 @@ func originVia(top, at *core.FuncInfo, e ast.Expr, depth int) string {
 		}
 		return true
 	})
-	o := origin(at, e, depth)
 	if len(sites) == 0 {
 		// one level further: top -> mid -> at
 		var out []string
